@@ -1341,3 +1341,203 @@ Proof.
       try (intros (A & B); discriminate); try (intros (A & B); discriminate B).
   - repeat constructor.
 Qed.
+
+(* ================================================================== NaN sums (NaN observations) *)
+(* a histogram that observed NaNs: the sum is NaN and the count may exceed the buckets *)
+Record wf_nan_hist (h : hist) : Prop := mkWFN {
+  wfn_pos : 0 < h_count h;
+  wfn_sum : sum_nan h = true;
+  wfn_tot : sumc (h_buckets h) <= h_count h;
+  wfn_cnt : Forall (fun b => 0 <= bc b) (h_buckets h);
+  wfn_bkt : Forall (wf_bucket (h_custom h)) (h_buckets h);
+  wfn_sorted : StronglySorted (fun a b => ext_le (bu a) (bl b)) (h_buckets h)
+}.
+
+Lemma last_default {A} (l : list A) a d1 d2 : last (a :: l) d1 = last (a :: l) d2.
+Proof. revert a. induction l as [|x l IH]; intro a; [reflexivity|]. simpl in *. apply IH. Qed.
+
+Lemma scan_last : forall bs rank cum lst b c,
+  scan bs rank cum lst = (b, c, []) -> b = last bs lst.
+Proof.
+  induction bs as [|x bs IH]; intros rank cum lst b c E; simpl in E.
+  - inversion E; auto.
+  - assert (Hl : last bs x = last (x :: bs) lst).
+    { destruct bs; [reflexivity|]. simpl. apply last_default. }
+    destruct (Qeq_bool (bc x) 0).
+    + apply IH in E. rewrite E. exact Hl.
+    + destruct (Qle_bool rank (cum + bc x)).
+      * inversion E; subst. reflexivity.
+      * apply IH in E. rewrite E. exact Hl.
+Qed.
+
+Section NaNSum.
+  Variable iexp : Q -> Q -> Q -> Q.
+  Hypothesis iexp_range : forall a b f, a < b -> 0 <= f -> f <= 1 -> a <= iexp a b f /\ iexp a b f <= b.
+  Hypothesis iexp_mono : forall a b f1 f2, a < b -> 0 <= f1 -> f1 <= f2 -> f2 <= 1 ->
+                                          iexp a b f1 <= iexp a b f2.
+
+  (* the two outcomes of the forward search on a histogram with NaN observations *)
+  Lemma hquantile_nan_char h q :
+    wf_nan_hist h -> 0 <= q -> q <= 1 ->
+    (exists pre b post f,
+        MinSel (h_buckets h) (q * h_count h) pre b post /\
+        0 <= f /\ f <= 1 /\ f * bc b == q * h_count h - sumc pre /\
+        hquantile iexp q h = qvalue iexp h b f)
+    \/ ((sumc (h_buckets h) < q * h_count h \/ Forall (fun x => bc x == 0) (h_buckets h)) /\
+        hquantile iexp q h =
+        match qadjust h (last (h_buckets h) zero_bucket) with inl r => r | inr _ => RNaN end).
+  Proof.
+    intros W H0 H1. destruct W as [Wp Ws Wt Wc Wb Wo].
+    set (N := h_count h) in *. set (bs := h_buckets h) in *.
+    assert (HqN0 : 0 <= q * N) by nra.
+    unfold hquantile, hquantile_gen.
+    replace (Qlt_bool q 0) with false by (symmetry; apply Qlt_bool_false; lra).
+    replace (Qlt_bool 1 q) with false by (symmetry; apply Qlt_bool_false; lra).
+    replace (Qeq_bool (h_count h) 0) with false by (symmetry; apply Qeq_bool_false; fold N; lra).
+    rewrite Ws. simpl orb. simpl andb. cbv beta iota. fold N. fold bs.
+    destruct (scan bs (q * N) 0 zero_bucket) as [[b c] rest] eqn:Es.
+    destruct (scan_spec _ _ _ _ _ _ _ HqN0 Es) as [(pre & E & Hnz & Hcc & Hle & Hr & Hmin)|(E & Hcc & Hd)].
+    - left.
+      assert (Hb : 0 < bc b).
+      { apply (nonneg_pos bs); auto. rewrite E. apply in_or_app. right. left. auto. }
+      assert (Hrest : 0 <= sumc rest).
+      { apply sumc_nonneg. rewrite E in Wc. apply Forall_app in Wc. destruct Wc as (_ & Wc).
+        inversion Wc; auto. }
+      assert (HT : sumc bs == sumc pre + bc b + sumc rest).
+      { rewrite E at 1. rewrite sumc_app. simpl. lra. }
+      destruct (div_range (q * N - (c - bc b)) (bc b) Hb ltac:(lra) ltac:(lra)) as (F0 & F1 & Fm).
+      exists pre, b, rest, ((q * N - (c - bc b)) / bc b).
+      split.
+      { split; [split; [auto|split; [auto|split; lra]]|].
+        intros p1 x p2 Ep Hx. specialize (Hmin _ _ _ Ep Hx). lra. }
+      split; [auto|]. split; [auto|]. split; [lra|].
+      unfold qvalue. destruct (qadjust h b) as [r|[l u]]; [reflexivity|].
+      replace (Qlt_bool N c) with false by (symmetry; apply Qlt_bool_false; lra).
+      replace (Qlt_bool c (q * N)) with false by (symmetry; apply Qlt_bool_false; lra).
+      replace (Qeq_bool (bc b) 0) with false by (symmetry; apply Qeq_bool_false; lra).
+      reflexivity.
+    - right. subst rest. apply scan_last in Es. subst b.
+      split.
+      { destruct Hd as [Hd|Hd]; [left; lra|right; auto]. }
+      destruct (qadjust h (last bs zero_bucket)) as [r|[l u]]; [reflexivity|].
+      assert (HcN : c <= N) by lra.
+      replace (Qlt_bool N c) with false by (symmetry; apply Qlt_bool_false; lra).
+      destruct (Qlt_bool c (q * N)) eqn:El; [reflexivity|].
+      qb. destruct Hd as [Hd|Hd]; [lra|].
+      assert (Hz := sumc_zero _ Hd).
+      (* nothing populated and rank = 0: 0/0 *)
+      assert (Hlast : bc (last bs zero_bucket) == 0).
+      { clear - Hd. induction Hd; simpl; [lra|]. destruct l; auto. }
+      replace (Qeq_bool (bc (last bs zero_bucket)) 0) with true by (symmetry; apply Qeq_bool_iff; auto).
+      replace (Qeq_bool (q * N - (c - bc (last bs zero_bucket))) 0) with true; [reflexivity|].
+      symmetry. apply Qeq_bool_iff. lra.
+  Qed.
+
+  Lemma last_split (bs : list bucket) : bs <> [] -> exists pre, bs = pre ++ [last bs zero_bucket].
+  Proof.
+    intro H. destruct (exists_last H) as (pre & a & E). exists pre. rewrite E at 2.
+    rewrite last_last. exact E.
+  Qed.
+
+  Lemma qadjust_zero_bucket h : exists lu, qadjust h zero_bucket = inr lu.
+  Proof.
+    unfold qadjust, zero_bucket; simpl. destruct (h_custom h); simpl; eexists; reflexivity.
+  Qed.
+
+  (* an early return for the last bucket is a number inside that bucket *)
+  Lemma qadjust_inl_range h b r :
+    wf_bucket (h_custom h) b -> qadjust h b = inl r ->
+    exists e, r = R e /\ ext_le (bl b) e /\ ext_le e (bu b).
+  Proof.
+    intros Wb E. destruct (qvalue_range iexp iexp_range h b 0 Wb ltac:(lra) ltac:(lra)) as (e & He & Hl & Hu).
+    unfold qvalue in He. rewrite E in He. exists e. auto.
+  Qed.
+
+  (* with NaN observations (sum NaN, count >= buckets) the fixed code never decreases either:
+     once q is so large that the rank lies beyond all buckets the result is NaN (or, for custom
+     buckets, the early return of the last bucket) *)
+  Theorem quantile_mono_nan h q1 q2 :
+    wf_nan_hist h -> 0 <= q1 -> q1 <= q2 -> q2 <= 1 ->
+    hquantile iexp q2 h = RNaN \/ res_le (hquantile iexp q1 h) (hquantile iexp q2 h).
+  Proof.
+    intros W H0 H12 H1.
+    assert (Hp := wfn_pos h W). assert (Wc := wfn_cnt h W).
+    assert (FB := wfn_bkt h W). rewrite Forall_forall in FB.
+    assert (Hr : q1 * h_count h <= q2 * h_count h) by nra.
+    destruct (hquantile_nan_char h q1 W H0 ltac:(lra))
+      as [(pre1 & b1 & post1 & f1 & HM1 & F10 & F11 & Fm1 & Hv1)|(Hn1 & Hv1)];
+    destruct (hquantile_nan_char h q2 W ltac:(lra) H1)
+      as [(pre2 & b2 & post2 & f2 & HM2 & F20 & F21 & Fm2 & Hv2)|(Hn2 & Hv2)];
+    rewrite Hv1, Hv2.
+    - (* both found *)
+      right.
+      assert (Wb1 : wf_bucket (h_custom h) b1) by (apply FB; eapply sel_in; apply HM1).
+      assert (Wb2 : wf_bucket (h_custom h) b2) by (apply FB; eapply sel_in; apply HM2).
+      destruct (sel_order_fwd _ _ _ _ _ _ _ _ _ HM1 (proj1 HM2) Hr) as [(Ea & Eb & Ec)|(mid & Ea & Eb)].
+      + subst pre2 b2 post2. destruct HM1 as ((_ & Hb & _) & _).
+        apply qvalue_mono; auto. apply Qmult_lt_0_le_reg_r with (z := bc b1); auto. lra.
+      + destruct (qvalue_range iexp iexp_range h b1 f1 Wb1 F10 F11) as (e1 & He1 & _ & Hu1).
+        destruct (qvalue_range iexp iexp_range h b2 f2 Wb2 F20 F21) as (e2 & He2 & Hl2 & _).
+        rewrite He1, He2. simpl.
+        assert (Hm : ext_le (bu b1) (bl b2)).
+        { apply (sorted_mid (h_buckets h) pre1 mid post2); [apply (wfn_sorted h W)|].
+          destruct HM2 as ((E2 & _) & _). rewrite E2, Ea. rewrite <- app_assoc. reflexivity. }
+        eapply ext_le_trans; [exact Hu1|]. eapply ext_le_trans; [exact Hm|exact Hl2].
+    - (* q1 found, q2 beyond the buckets *)
+      destruct (qadjust h (last (h_buckets h) zero_bucket)) as [r|lu] eqn:Ea; [right|left; reflexivity].
+      assert (Wb1 : wf_bucket (h_custom h) b1) by (apply FB; eapply sel_in; apply HM1).
+      destruct HM1 as ((E1 & Hb1 & _) & _).
+      assert (Hne : h_buckets h <> []) by (rewrite E1; destruct pre1; discriminate).
+      destruct (last_split _ Hne) as (pre & El).
+      set (bl_ := last (h_buckets h) zero_bucket) in *.
+      assert (Wbl : wf_bucket (h_custom h) bl_).
+      { apply FB. rewrite El. apply in_or_app. right. left. auto. }
+      destruct (qadjust_inl_range h bl_ r Wbl Ea) as (e & -> & Hl & Hu).
+      destruct (qvalue_range iexp iexp_range h b1 f1 Wb1 F10 F11) as (e1 & He1 & _ & Hu1).
+      rewrite E1 in El.
+      destruct (split_cmp pre1 b1 post1 pre bl_ [] El) as [(Ex & Ey & Ez)|[(mid & Ex & Ey)|(mid & Ex & Ey)]].
+      + (* b1 is the last bucket: same early return *)
+        unfold qvalue. rewrite Ey, Ea. simpl. apply ext_le_refl.
+      + rewrite He1. simpl.
+        assert (Hm : ext_le (bu b1) (bl bl_)).
+        { apply (sorted_mid (h_buckets h) pre1 mid []); [apply (wfn_sorted h W)|].
+          rewrite E1, Ey. reflexivity. }
+        eapply ext_le_trans; [exact Hu1|]. eapply ext_le_trans; [exact Hm|exact Hl].
+      + destruct mid; discriminate.
+    - (* q1 beyond the buckets but q2 not: impossible *)
+      exfalso. destruct HM2 as ((E2 & Hb2 & Hlo2 & Hhi2) & _).
+      assert (HT : sumc (h_buckets h) == sumc pre2 + bc b2 + sumc post2).
+      { rewrite E2 at 1. rewrite sumc_app. simpl. lra. }
+      assert (0 <= sumc post2).
+      { apply sumc_nonneg. rewrite E2 in Wc. apply Forall_app in Wc. destruct Wc as (_ & Wc).
+        inversion Wc; auto. }
+      destruct Hn1 as [Hn1|Hn1]; [lra|].
+      rewrite Forall_forall in Hn1. specialize (Hn1 b2). rewrite E2 in Hn1.
+      specialize (Hn1 ltac:(apply in_or_app; right; left; auto)). lra.
+    - (* both beyond the buckets: the same result *)
+      destruct (qadjust h (last (h_buckets h) zero_bucket)) as [r|lu] eqn:Ea; [right|left; reflexivity].
+      destruct (h_buckets h) as [|x l] eqn:Eb.
+      { simpl in Ea. destruct (qadjust_zero_bucket h) as (lu & E). congruence. }
+      rewrite <- Eb in *.
+      assert (Hne : h_buckets h <> []) by (rewrite Eb; discriminate).
+      destruct (last_split _ Hne) as (pre & El).
+      assert (Wbl : wf_bucket (h_custom h) (last (h_buckets h) zero_bucket)).
+      { apply FB. rewrite El at 2. apply in_or_app. right. left. auto. }
+      destruct (qadjust_inl_range h _ r Wbl Ea) as (e & -> & Hl & Hu).
+      simpl. apply ext_le_refl.
+  Qed.
+End NaNSum.
+
+Definition example_nan : hist :=
+  mkH 10 RNaN false true false [mkB (Fin (1 # 2)) (Fin 1) 3; mkB (Fin 1) (Fin 2) 4].
+Lemma example_nan_wf : wf_nan_hist example_nan.
+Proof.
+  constructor; simpl.
+  - lra.
+  - reflexivity.
+  - vm_compute. discriminate.
+  - repeat constructor; simpl; lra.
+  - repeat constructor; simpl; try discriminate;
+      try (intros (A & _); discriminate); try (intros _; eexists; eexists; split; reflexivity).
+  - repeat constructor.
+Qed.
